@@ -52,6 +52,17 @@
 (* the cell overflows its columns and pushes the rest of ITS line to the right     *)
 (* (requirements fit/start/margin fail).  StarvedSpanFix = TRUE is the repaired    *)
 (* algorithm (grow the last column of such a cell); TextTab_fixed.cfg checks it.   *)
+(*                                                                                 *)
+(* Domain notes (behaviour of the code that the statement does not forbid):        *)
+(*  - contents are non-blank and have no leading/trailing blanks; a cell whose     *)
+(*    content and margin are blank is not printed at all, so trailing rows made    *)
+(*    of such cells produce no line, and Row() before the first cell is a no-op    *)
+(*  - a margin-only cell whose margin text ends in a blank and that is last on     *)
+(*    its line leaves that blank (margins are printed verbatim): requirement       *)
+(*    "trail" exempts such lines (LastCellOK)                                      *)
+(*  - model tables have <= 12 cells: sort.Slice is then a stable insertion sort;   *)
+(*    beyond that the processing order of equal-span cells is unspecified          *)
+(*  - width = number of characters (runes), which is what the code counts          *)
 EXTENDS Integers, Sequences, FiniteSets, TLC, SequencesExt
 
 CONSTANTS
@@ -346,12 +357,14 @@ LemmasOf(lay, n, lm) ==
                   rg == lay.offs[cells[i].col + cells[i].span] - lay.obs.cells[i].e
               IN lg <= rg /\ rg <= lg + 1
 
+LayoutOKOf(lay, n, lm) ==
+  /\ ReqFailsX(cells, lay.obs, lay.offs, n, lm) = {}
+  /\ ReqFailsX(cells, lay.obs, WitnessX(cells, lay.obs, n, lm), n, lm) = {}
+  /\ LemmasOf(lay, n, lm)
+
 LayoutOK ==
   LET n   == NColsOf(cells)
       lm  == LMOf(cells)
-      lay == OpLayoutX(cells, shrink, n, lm)
-  IN /\ ReqFailsX(cells, lay.obs, lay.offs, n, lm) = {}
-     /\ ReqFailsX(cells, lay.obs, WitnessX(cells, lay.obs, n, lm), n, lm) = {}
-     /\ LemmasOf(lay, n, lm)
+  IN LayoutOKOf(OpLayoutX(cells, shrink, n, lm), n, lm)
 
 =============================================================================
